@@ -31,75 +31,11 @@ theorem load_save_data_roundtrip (m : Data) (hs : Sorted m) (hl : ∀ p ∈ m, w
 
 /-- Beyond the limits `save_data` throws (the model's explicit error constructors), and only then. -/
 theorem save_data_throws_iff (m : Data) :
-    (∃ e, saveData m = .error e) ↔ ∃ p ∈ m, ¬ withinLimits p := by
-  constructor
-  · rintro ⟨e, he⟩
-    induction m with
-    | nil => simp [saveData] at he
-    | cons p rest ih =>
-      by_cases hp : withinLimits p
-      · simp only [saveData, encodeEntry_ok p hp] at he
-        cases hr : saveData rest with
-        | error e' =>
-          simp [hr] at he; subst he
-          obtain ⟨q, hq, hn⟩ := ih hr
-          exact ⟨q, List.mem_cons_of_mem _ hq, hn⟩
-        | ok b => simp [hr] at he
-      · exact ⟨p, List.mem_cons_self .., hp⟩
-  · rintro ⟨p, hp, hn⟩
-    cases h : saveData m with
-    | error e => exact ⟨e, rfl⟩
-    | ok bs =>
-      exfalso
-      have hlen : m.length ≤ bs.length := by have := saveData_length m bs h; omega
-      -- the encoder succeeded, so parsing the output gives entries within the limits; but it gives `m`
-      have key : ∀ (m : Data) (bs : Bytes), saveData m = .ok bs → ∀ q ∈ m, withinLimits q := by
-        intro m
-        induction m with
-        | nil => intro _ _ q hq; cases hq
-        | cons a rest ih =>
-          intro bs hs q hq
-          simp only [saveData] at hs
-          cases ha : encodeEntry a with
-          | error e => simp [ha] at hs
-          | ok x =>
-            cases hr : saveData rest with
-            | error e => simp [ha, hr] at hs
-            | ok y =>
-              rcases List.mem_cons.mp hq with rfl | hq
-              · simp only [encodeEntry, packHeader] at ha
-                constructor
-                · by_cases hk : q.1.length ≥ Gen.keyLimit
-                  · simp [hk] at ha
-                  · omega
-                · by_cases hk : q.1.length ≥ Gen.keyLimit
-                  · simp [hk] at ha
-                  · by_cases hd : q.2.value.length ≥ Gen.dataLimit
-                    · simp [hk, hd] at ha
-                    · omega
-              · exact ih y hr q hq
-      exact hn (key m bs h p hp)
+    (∃ e, saveData m = .error e) ↔ ∃ p ∈ m, ¬ withinLimits p := saveData_throws_iff m
 
 /-- The kind of exception: the first offending entry in map order decides, key before value. -/
 theorem save_data_error_kind (m : Data) (e : Err) (h : saveData m = .error e) :
-    e = .keyTooLong ∨ e = .valueTooLong := by
-  induction m with
-  | nil => simp [saveData] at h
-  | cons p rest ih =>
-    simp only [saveData] at h
-    cases ha : encodeEntry p with
-    | error e' =>
-      simp [ha] at h; subst h
-      simp only [encodeEntry, packHeader] at ha
-      by_cases hk : p.1.length ≥ Gen.keyLimit
-      · simp [hk] at ha; exact Or.inl ha.symm
-      · by_cases hd : p.2.value.length ≥ Gen.dataLimit
-        · simp [hk, hd] at ha; exact Or.inr ha.symm
-        · simp [hk, hd] at ha
-    | ok x =>
-      cases hr : saveData rest with
-      | error e' => simp [ha, hr] at h; subst h; exact ih hr
-      | ok y => simp [ha, hr] at h
+    e = .keyTooLong ∨ e = .valueTooLong := saveData_error_kind m e h
 
 /-- Bounds safety and exactness of `load_data` on **arbitrary** bytes (storage contents, decrypted
 cookies): it either throws one of the two format errors or accepts, and when it accepts, the entries it
